@@ -17,6 +17,7 @@ import (
 	"encoding/json"
 	"fmt"
 	"go/ast"
+	"go/build"
 	"go/format"
 	"go/importer"
 	"go/parser"
@@ -68,6 +69,9 @@ func (m *loader) load(path, dir string) (*types.Package, error) {
 		n := e.Name()
 		if e.IsDir() || !strings.HasSuffix(n, ".go") || strings.HasSuffix(n, "_test.go") {
 			continue
+		}
+		if ok, err := build.Default.MatchFile(dir, n); err == nil && !ok {
+			continue // excluded by a build constraint or a GOOS/GOARCH file name suffix
 		}
 		f, err := parser.ParseFile(m.fset, filepath.Join(dir, n), nil, parser.ParseComments)
 		if err != nil {
@@ -303,6 +307,33 @@ func (m *loader) headerAccesses(pi *pkgInfo, s ast.Stmt) (locs []string, writes 
 	return
 }
 
+// isSyncWrapperStmt: is the statement (or deferred call) nothing but a call to one of the
+// simrt lock / once / wait-group wrappers the sync calls were rewritten to?
+func isSyncWrapperStmt(s ast.Stmt) bool {
+	var call *ast.CallExpr
+	switch st := s.(type) {
+	case *ast.ExprStmt:
+		call, _ = st.X.(*ast.CallExpr)
+	case *ast.DeferStmt:
+		call = st.Call
+	}
+	if call == nil {
+		return false
+	}
+	sel, ok := call.Fun.(*ast.SelectorExpr)
+	if !ok {
+		return false
+	}
+	if id, ok := sel.X.(*ast.Ident); !ok || id.Name != "simrt" {
+		return false
+	}
+	switch sel.Sel.Name {
+	case "Lock", "Unlock", "RWLock", "RWUnlock", "RWRLock", "RWRUnlock", "WGAdd", "WGDone", "WGWait":
+		return true
+	}
+	return false
+}
+
 // headerHasAtomic: does the statement itself (not its nested blocks or
 // function literals) call into sync/atomic?
 func (m *loader) headerHasAtomic(pi *pkgInfo, s ast.Stmt) bool {
@@ -340,6 +371,10 @@ func (m *loader) instrList(pi *pkgInfo, list []ast.Stmt) []ast.Stmt {
 			break
 		}
 		locs, writes := m.headerAccesses(pi, inner)
+		if isSyncWrapperStmt(inner) {
+			// taking or releasing a lock that lives inside a package-level struct reads no protected data
+			locs = nil
+		}
 		for _, loc := range locs {
 			id := newSite("access", m.rel(s.Pos()), loc, writes[loc])
 			out = append(out, accessStmt(id, loc, writes[loc]))
